@@ -265,6 +265,11 @@ int32_t psAesDecryptGCM(psAesGcm_t *ctx,
     if (memcmpct(tag, ct + ptLen, tagLen) != 0)
     {
         psTraceCrypto("GCM didn't authenticate\n");
+        /* Do not release unauthenticated plaintext to the caller */
+        if (ptLen > 0)
+        {
+            memset_s(pt, ptLen, 0x0, ptLen);
+        }
         return PS_AUTH_FAIL;
     }
     return PS_SUCCESS;
@@ -283,6 +288,11 @@ int32_t psAesDecryptGCM2(psAesGcm_t *ctx,
     if (memcmpct(tag, tagTmp, tagLen) != 0)
     {
         psTraceCrypto("GCM didn't authenticate\n");
+        /* Do not release unauthenticated plaintext to the caller */
+        if (len > 0)
+        {
+            memset_s(pt, len, 0x0, len);
+        }
         return PS_AUTH_FAIL;
     }
     return PS_SUCCESS;
